@@ -27,6 +27,14 @@ RULE = (
 ASSUMPTIONS = ["naive datetimes are outside the domain (README documents aware datetimes)",
                "an offset is applied only when the local wall time stays within datetime.min..max"]
 
+class _MyDateTime(datetime):
+    pass
+
+
+class _MyTimeDelta(timedelta):
+    pass
+
+
 TS_RE = re.compile(r"^\d{4}-\d\d-\d\dT\d\d:\d\d:\d\d(\.\d{3}|\.\d{6}|\.\d{9})?Z$")
 DUR_RE = re.compile(r"^-?\d+(\.\d{3}|\.\d{6}|\.\d{9})?s$")
 
@@ -137,7 +145,7 @@ def targets(ctx):
         return v.seconds, v.nanos
 
     @collecting
-    def clauses(out, kind, us, off, pos, off_us=0):
+    def clauses(out, kind, us, off, pos, off_us=0, subclass=False):
         msg, ftmpl, wrap = POS[pos]
         k = "ts" if kind == "ts" else "dur"
         field = ftmpl.format(k=k)
@@ -160,6 +168,12 @@ def targets(ctx):
             ref.FromTimedelta(py)
         if (ref.seconds, ref.nanos) != want:
             raise RuntimeError(f"oracles disagree: spec {want} reference {(ref.seconds, ref.nanos)}")
+        if subclass:
+            # an instance of a SUBCLASS of datetime / timedelta (what freezegun, pandas or a project's own types hand over)
+            if kind == "ts":
+                py = _MyDateTime(py.year, py.month, py.day, py.hour, py.minute, py.second, py.microsecond, tzinfo=py.tzinfo)
+            else:
+                py = _MyTimeDelta(microseconds=us)
         m = guard("build", lambda: cls(**{field: wrap(py)}))
         b = guard("bytes", bytes, m)
         try:
@@ -325,18 +339,19 @@ def targets(ctx):
             # the ambient decimal context belongs to the host application
             with decimal.localcontext() as dctx:
                 dctx.prec = prec
-                found = clauses(kind, us, off, pos, off_us)
+                found = clauses(kind, us, off, pos, off_us, bool(case.get('subclass')))
         else:
-            found = clauses(kind, us, off, pos, off_us)
+            found = clauses(kind, us, off, pos, off_us, bool(case.get('subclass')))
         vc = vclass(kind, us, off) + (["subsecond_offset"] if off_us else [])
         fails = [Failure(cl, f"{cl}|{kind}|{pos}|{'+'.join(vc[1:]) or 'plain'}", f"case={case!r} :: {d}") for cl, d in found]
-        return Eval(fails, nontrivial=len(vc) > 1, labels=[f"pos:{pos}", f"process_tz:{case.get('tzenv') or 'as_is'}", f"decimal_prec:{case.get('decimal_prec') or 'default'}"] + [f"vc:{x}" for x in vc])
+        return Eval(fails, nontrivial=len(vc) > 1, labels=[f"pos:{pos}", f"process_tz:{case.get('tzenv') or 'as_is'}", f"decimal_prec:{case.get('decimal_prec') or 'default'}", f"subclass_value:{bool(case.get('subclass'))}"] + [f"vc:{x}" for x in vc])
 
     @st.composite
     def strat(draw):
         kind = draw(st.sampled_from(["ts", "dur"]))
         pos = draw(st.sampled_from(list(POS)))
         prec = draw(st.sampled_from([None, None, None, None, 6, 12, 9]))
+        sub = draw(st.integers(0, 7)) == 0
         tzenv = draw(st.sampled_from([None, None, None, "UTC0", "IST-5:30", "NST3:30NDT,M3.2.0,M11.1.0", "XYZ12", "CET-1CEST,M3.5.0,M10.5.0/3"]))
         if kind == "ts":
             us = draw(ts_us_strategy())
@@ -350,8 +365,10 @@ def targets(ctx):
                 extra["off_us"] = draw(st.sampled_from([500_000, 1, -1, 30_000_000, 999_999, -29_500_000]))
             if prec:
                 extra["decimal_prec"] = prec
+            if sub:
+                extra["subclass"] = True
             return {"kind": kind, "us": us, "off": off, "pos": pos, **({"tzenv": tzenv} if tzenv else {}), **extra}
-        return {"kind": kind, "us": draw(dur_us_strategy()), "pos": pos, **({"tzenv": tzenv} if tzenv else {}), **({"decimal_prec": prec} if prec else {})}
+        return {"kind": kind, "us": draw(dur_us_strategy()), "pos": pos, **({"tzenv": tzenv} if tzenv else {}), **({"decimal_prec": prec} if prec else {}), **({"subclass": True} if sub else {})}
 
     from . import _seq
 
